@@ -54,7 +54,14 @@ func (y *verifYieldStore) yield(what string) {
 
 func (y *verifYieldStore) SnapAction(ctx context.Context, currentSnaps []*store.CurrentSnap, actions []*store.SnapAction, assertQuery store.AssertionQuery, user *auth.UserState, opts *store.RefreshOptions) ([]store.SnapActionResult, []store.AssertionResult, error) {
 	y.yield("snap-action")
-	return y.fakeStore.SnapAction(ctx, currentSnaps, actions, assertQuery, user, opts)
+	res, ares, err := y.fakeStore.SnapAction(ctx, currentSnaps, actions, assertQuery, user, opts)
+	for i := range res {
+		// the fixture's store answers for alias-snap under another name
+		if res[i].Info != nil && res[i].Info.SnapID == "alias-snap-id" {
+			res[i].Info.RealName = "alias-snap"
+		}
+	}
+	return res, ares, err
 }
 
 func (y *verifYieldStore) SnapInfo(ctx context.Context, spec store.SnapSpec, user *auth.UserState) (*snap.Info, error) {
@@ -120,10 +127,12 @@ func verifBodyC14(s *verifEngC, gc *check.C) {
 	c := s.ctx
 	st := s.state
 	s.wrapHandlers()
-	names := []string{"some-snap", "some-other-snap"}
-	ids := map[string]string{"some-snap": "some-snap-id", "some-other-snap": "some-other-snap-id"}
+	// alias-snap is the fixture's snap with applications, so that alias
+	// changes on it succeed and alter the record's alias table
+	names := []string{"some-snap", "some-other-snap", "alias-snap"}
+	ids := map[string]string{"some-snap": "some-snap-id", "some-other-snap": "some-other-snap-id", "alias-snap": "alias-snap-id"}
 	// requests may also name a snap that is not installed at the start
-	reqNames := []string{"some-snap", "some-other-snap", "some-new-snap"}
+	reqNames := []string{"some-snap", "some-other-snap", "alias-snap", "some-new-snap"}
 	nextRev := map[string]int{}
 
 	st.Lock()
@@ -174,6 +183,7 @@ func verifBodyC14(s *verifEngC, gc *check.C) {
 			}
 		}
 		revertTo := 1 + c.Draw("revert-to-rev", 3)
+		aliasN := c.Draw("alias-target", 8)
 		reqs = append(reqs, r)
 		c.Logf("client request #%d: %s %v", r.id, r.kind, r.snaps)
 		go func() {
@@ -209,7 +219,7 @@ func verifBodyC14(s *verifEngC, gc *check.C) {
 			case "install":
 				ts, err = snapstate.Install(context.Background(), st, n, nil, s.user.ID, snapstate.Flags{})
 			case "alias":
-				ts, err = snapstate.Alias(st, n, "cmd1", "alias1")
+				ts, err = snapstate.Alias(st, n, "cmd"+fmt.Sprint(1+aliasN%4), "alias"+fmt.Sprint(1+aliasN%2))
 			case "unalias":
 				ts, err = snapstate.DisableAllAliases(st, n)
 			case "prefer":
